@@ -65,7 +65,8 @@ def cases(tier, seed):
     # the fault-free object with EVERY form of the option against every previous state (a refused save must be refused however
     # the caller spells "do not overwrite", a requested one carried out however "overwrite" is spelled)
     for prev in (None, prev_single, prev_ws, {"other": 1}, {"other": 2}):
-        for ow, forms in ((False, ("kw", "omitted", "positional", "kw-int", "kw-npbool", "kw-none")), (True, ("kw", "positional", "kw-int", "kw-npbool"))):
+        for ow, forms in ((False, ("kw", "omitted", "positional", "kw-int", "kw-npbool", "kw-none", "direct-omitted", "direct-kw", "direct-positional")),
+                          (True, ("kw", "positional", "kw-int", "kw-npbool", "direct-kw", "direct-positional"))):
             for form in forms:
                 out.append(dict({"single": o, "prev": prev, "overwrite": ow, "label": "obj:none"}, **({} if form == "kw" else {"owform": form})))
     # workspace entries: fault in the k-th entry (data object or plain dict)
